@@ -224,6 +224,10 @@ def _isnum(x):
     return isinstance(x, (int, float, np.number, SymNum)) and not isinstance(x, (bool, np.bool_))
 
 
+class SecondCallRaised(Exception):
+    pass
+
+
 class ABase:
     sym = False
 
@@ -266,6 +270,17 @@ class ABase:
 
     def xeq(self, a, b):
         return S._b_cmp('eq')(a, b) if (is_sym(a) or is_sym(b)) else bool(a == b)
+
+    def second(self, f, what='the transformed call'):
+        """Run f() - the second call of a relational job, made after the first one returned.  If it raises, that is itself a
+        violation of the relation (the score did not stay the same: there is none): the requirement is recorded and the path ends."""
+        st, res = self.call(f)
+        if st != 'ok' and isinstance(res, (S.Unsupported, S.Budget)):
+            raise res
+        self.require(st == 'ok', 'relational:%s-returns-like-the-first' % what, got=(repr(res)[:160] if st != 'ok' else None))
+        if st != 'ok':
+            raise SecondCallRaised(repr(res)[:200])
+        return res
 
     def call(self, f, *a, **k):
         """Call f; returns ('ok', value) or ('exc', exception)."""
